@@ -59,7 +59,7 @@ SPEC = {
             "and at least one corner operand (empty target, coefficient = 0 mod p, zero_entry of an absent entry, creation of an "
             "entry at a cell that was zeroed while absent)",
     "assumptions": [
-        "source != target for additions by index (and different classes with compression): self-addition is not exercised",
+        "additions by index use source == target (or, with compression, another member of the target's class) once in 12 operations; a column of the matrix obtained through get_column is never passed as an entry range for an addition onto itself (aliased entry ranges are not exercised)",
         "a vector of entries is only used as a source when no lazy row swap is pending (its row indices are public ones)",
         "no insertion beyond the end (no holes other than those left by remove_column); operations never address a removed index",
         "get_row(r) is only called for rows that certainly exist in the row container (lower bound derived from the model)",
@@ -76,7 +76,7 @@ SPEC = {
                        ("op.swap_rows.row_index_ge_ncols", 20000), ("op.swap_rows.fresh_row", 11000),
                        ("obs.forced_while_lazy_pending", 35000), ("op.additive_while_lazy_pending", 12000),
                        ("op.erase_empty_row", 5000), ("op.remove_column", 7000), ("op.make_identical_to_other_class", 6000),
-                       ("op.add_to.range_vector", 50000), ("op.multiply_source_and_add_to.range_column", 12000)] +
+                       ("op.add_to.range_vector", 50000), ("op.additive_with_source_equal_to_target", 15000), ("op.multiply_source_and_add_to.range_column", 12000)] +
                       [(ct + ".into_empty_target", 12000) for ct in _CT] +
                       [(ct + ".scaled_source_into_empty_target", 3500) for ct in _CT] +
                       [(ct + ".coef_zero", 7500) for ct in _CT] +
